@@ -106,6 +106,11 @@ Definition run_for_seg (tolerance sqrt_tol : T) (e : PathEl T) (sg : option (Pat
 Definition somes {A} (l : list (option A)) : list A :=
   flat_map (fun o => match o with Some a => [a] | None => [] end) l.
 
+(** [cross] of [estimate_subdiv]: (p2 - p0) x ((p1 - p0) - (p2 - p1)) = twice the doubled signed
+    area of the control triangle; non-zero iff the control points are not collinear *)
+Definition quad_cross (q : QuadBez T) : T :=
+  v_cross (pt_sub (q2 q) (q0 q)) (v_sub (pt_sub (q1 q) (q0 q)) (pt_sub (q2 q) (q1 q))).
+
 (** the points of a list of quadratics at per-quadratic parameter lists *)
 Fixpoint quads_pts (quads : list (QuadBez T)) (tss : list (list T)) : list (Point T) :=
   match quads, tss with
@@ -116,6 +121,15 @@ Fixpoint quads_pts (quads : list (QuadBez T)) (tss : list (list T)) : list (Poin
 (** the parameter on the cubic of local parameter [t] of piece [i] of [n]: t0 + t (t1 - t0) *)
 Definition piece_param (c : CubicBez T) (n i : Z) (t : T) : T :=
   let '(t0, t1, _) := fl_to_quad c n i in fadd t0 (fmul t (fsub t1 t0)).
+
+(** no QuadTo / CurveTo directly after a ClosePath ([after] = the previous element was ClosePath) *)
+Fixpoint no_curve_after_close (after : bool) (els : list (PathEl T)) : bool :=
+  match els with
+  | [] => true
+  | MoveTo _ :: r | LineTo _ :: r => no_curve_after_close false r
+  | QuadTo _ _ :: r | CurveTo _ _ _ :: r => negb after && no_curve_after_close false r
+  | ClosePath :: r => no_curve_after_close true r
+  end.
 
 (** uniform scaling about the origin *)
 Definition scale_pt (k : T) (p : Point T) : Point T := mkPoint (fmul k (px p)) (fmul k (py p)).
